@@ -82,6 +82,7 @@ type vfC17Conn struct {
 	rig       *vfC17Rig
 	closeErr  bool  // first Close reports an error (a real conn may: reset by peer)
 	closes    int32 // Close calls that reached the inner conn
+	yields    int   // the first inner Close takes this many scheduler yields (a real close(2) takes time)
 	byHarness int32 // set by the harness before it closes the wrapper
 }
 
@@ -100,6 +101,22 @@ func (c *vfC17Conn) Close() error {
 	if n > 1 {
 		return net.ErrClosed
 	}
+	// The connection is open until this (inner) Close has returned. While it is still running the
+	// acceptor gets every chance to run: capacity must be released BY a closed connection.
+	if c.yields > 0 {
+		c.rig.mu.Lock()
+		if c.rig.inflight == 0 && c.rig.pending() > 0 && c.rig.innerOpen >= c.rig.stableCap {
+			c.rig.slowCloseSaturated++
+		}
+		c.rig.mu.Unlock()
+		for i := 0; i < c.yields; i++ {
+			runtime.Gosched()
+		}
+	}
+	c.rig.mu.Lock()
+	c.rig.innerOpen--
+	c.rig.logf("inner-closed#%d", c.id)
+	c.rig.mu.Unlock()
 	if c.closeErr {
 		return fmt.Errorf("vf: close reports connection reset")
 	}
@@ -191,6 +208,8 @@ type vfC17Rig struct {
 	acc  chan struct{}  // closed when the acceptor loop has returned
 
 	counter    int // accepted and not yet handed to Close (under-approximates open connections)
+	innerOpen  int // accepted and the Close of the WRAPPED connection has not returned yet (what is really open)
+	slowCloseSaturated int // slow inner closes started while open == cap with a dial pending
 	open       map[int]net.Conn
 	closed     map[int]net.Conn
 	dialed     int
@@ -263,6 +282,10 @@ func (r *vfC17Rig) onAccept(c net.Conn) {
 	r.counter++
 	r.acceptedN++
 	r.open[inner.id] = c
+	r.innerOpen++
+	if r.inflight == 0 && r.innerOpen > r.stableCap && r.counter <= r.stableCap {
+		r.violate("new-connection-accepted-while-a-closing-connection-is-still-open", "accept of #%d makes %d connections open (the close of the underlying connection has not returned for %d of them), cap %d, no capacity change in flight", inner.id, r.innerOpen, r.innerOpen-r.counter, r.stableCap)
+	}
 	if r.counter > r.peak {
 		r.peak = r.counter
 	}
@@ -335,11 +358,14 @@ func (r *vfC17Rig) setMax(n int) {
 	}()
 }
 
-func (r *vfC17Rig) dial(k int, closeErr bool) {
+func (r *vfC17Rig) dial(k int, closeErr bool, yields ...int) {
 	r.mu.Lock()
 	cs := make([]*vfC17Conn, 0, k)
 	for i := 0; i < k; i++ {
 		cs = append(cs, &vfC17Conn{id: r.dialed, rig: r, closeErr: closeErr})
+		if len(yields) > 0 {
+			cs[len(cs)-1].yields = yields[0]
+		}
 		if r.inner == nil {
 			r.inner = map[int]*vfC17Conn{}
 		}
@@ -606,10 +632,11 @@ type vfC17Step struct {
 	Double    int // selector into the closed list (+1), 0 = none
 	NoSettle  bool
 	SetFirst  bool // capacity change(s) before the dials/closes of this step
+	CloseYields int // the inner Close of the connections dialled in this step takes that many yields
 }
 
 func (s vfC17Step) String() string {
-	return fmt.Sprintf("{dial:%d%s close:%v par:%v setmax:%v accErr:%v dbl:%d nosettle:%v setfirst:%v}", s.Dial, map[bool]string{true: "e", false: ""}[s.DialErr], s.Close, s.Parallel, s.SetMax, s.AccErr, s.Double, s.NoSettle, s.SetFirst)
+	return fmt.Sprintf("{dial:%d%s close:%v par:%v setmax:%v accErr:%v dbl:%d nosettle:%v setfirst:%v cy:%d}", s.Dial, map[bool]string{true: "e", false: ""}[s.DialErr], s.Close, s.Parallel, s.SetMax, s.AccErr, s.Double, s.NoSettle, s.SetFirst, s.CloseYields)
 }
 
 func vfC17GenStep(rt *rapid.T, i int, cap0 int) vfC17Step {
@@ -662,6 +689,7 @@ func vfC17GenStep(rt *rapid.T, i int, cap0 int) vfC17Step {
 	}
 	if s.Dial > 0 {
 		s.DialErr = rapid.IntRange(0, 5).Draw(rt, "closeErr") == 0
+		s.CloseYields = rapid.SampledFrom([]int{0, 0, 1, 2, 5, 20, 100}).Draw(rt, "closeYields")
 	}
 	s.NoSettle = rapid.IntRange(0, 3).Draw(rt, "nosettle") == 0
 	return s
@@ -764,7 +792,7 @@ func TestVerifC17Listener(t *testing.T) {
 				r.ln.injectErr()
 			}
 			if s.Dial > 0 {
-				r.dial(s.Dial, s.DialErr)
+				r.dial(s.Dial, s.DialErr, s.CloseYields)
 			}
 			if s.Double > 0 && len(closedIDs) > 0 {
 				id := closedIDs[(s.Double-1)%len(closedIDs)]
@@ -809,6 +837,7 @@ func TestVerifC17Listener(t *testing.T) {
 		viols := append([]vfC17Viol(nil), r.viols...)
 		finalCap := r.lastIssued
 		heldBack, reuse := r.heldBackSeen, r.reuseSeen
+		slowSat := r.slowCloseSaturated
 		stableAcc, inflAcc, accErrs, peak := r.stableAccepts, r.inflightAccepts, r.acceptErrs, r.peak
 		r.mu.Unlock()
 
@@ -824,6 +853,9 @@ func TestVerifC17Listener(t *testing.T) {
 		}
 		if reuse > 0 {
 			vf.Class("capacity-reused-after-close-or-grow")
+		}
+		for i := 0; i < slowSat; i++ {
+			vf.Class("slow-inner-close-started-at-cap-with-dial-pending")
 		}
 		if changeWhileOpen {
 			vf.Class("setmax-while-open")
